@@ -80,6 +80,7 @@ class EpsilonNFA(Regexable, FiniteAutomaton):
         self._input_symbols = input_symbols or set()
         self._transition_function = \
             transition_function or NondeterministicTransitionFunction()
+        self._register_transition_function()
         if start_state is not None:
             start_state = {to_state(x) for x in start_state}
         self._start_state = start_state or set()
